@@ -25,6 +25,8 @@ Section Join.
   Variable label_id : list xlabel -> Z.
   Variable vox_c : Z -> list ijk.
   Variable vox_id : list ijk -> Z.
+  (* value * 10 ** exponent on the opaque series values (SeriesStart / SeriesStep are float ids) *)
+  Variable scale10 : Z -> Z -> Z.
 
   Definition vol_child (v : vol) : xchild :=
     let '(aff, (i, j, k)) := v in CVol (mkVL [i; j; k] (Some (-3, Some aff))).
@@ -165,9 +167,9 @@ Section Join.
                      (map (fun n => meta_id (opt_default (nm_meta n))) ns) with
       | Ok a => Ok (ALab a) | Err e => Err e end
     else if ty =? mt_series then
-      (* start = series_start * 10 ** series_exponent: only exponent 0 (what to_mapping writes) is modelled *)
+      (* start = mim.series_start * 10 ** mim.series_exponent, step likewise; a missing attribute is a TypeError *)
       match xs_n ser, xs_exp ser, xs_start ser, xs_step ser, xs_unit ser with
-      | Some n, Some 0, Some st, Some sp, Some u => Ok (ASer (mkSer st sp n u))
+      | Some n, Some e, Some st, Some sp, Some u => Ok (ASer (mkSer (scale10 st e) (scale10 sp e) n u))
       | _, _, _, _, _ => Err EKind
       end
     else Err EKind.
